@@ -383,3 +383,5 @@ def c10_check(prop, tier, seed, replay):
 
 
 CHECKS["C10"] = c10_check
+
+reg("C09", "MC_C09", gens.gen_c09, {"random_len": 800}, {"random_len": 3000})
